@@ -91,7 +91,7 @@ Fixpoint state_run (fuel : nat) (w : mworld) (l : list Z) : list Z :=
     | 7 :: x :: r => fin (do_cheat w (ChainId x)) (fun w' => state_run f w' r)
     | 8 :: x :: r => fin (do_cheat w (Coinbase x)) (fun w' => state_run f w' r)
     | 9 :: x :: r => fin (do_cheat w (Difficulty x)) (fun w' => state_run f w' r)
-    | 10 :: a :: r => read_balance w a :: state_run f w r
+    | 10 :: a :: r => match read_balance_checked w a with Some v => v :: state_run f w r | None => [0] end
     | 11 :: a :: s :: r => read_storage w a s :: state_run f w r
     | 12 :: a :: r => match read_code w (u160 a) with Some c => Z.of_nat (List.length c) | None => -1 end :: state_run f w r
     | 13 :: r => mw_timestamp w :: state_run f w r
